@@ -28,6 +28,7 @@ def rules(ctx):
     c122(ctx)
     c123(ctx)
     c124(ctx)
+    c125(ctx)
     C09.c096(ctx)
     # "each batch exactly once and whole" under concurrent appends rests on the coalescing queue handing every input to the core once
     from . import C18
@@ -106,9 +107,15 @@ def c121(ctx):
             for pt, c in header_discriminants(f):
                 written[c.get("named", str(c.get("v")))] = c.get("v")
     ctx.floor(R, "discriminants written", len(written), 3)
-    rd = ctx.fn(R, LOG + "LogIterator::next")
-    if not rd:
+    nx = ctx.fn(R, LOG + "LogIterator::next")
+    if not nx:
         return
+    # the function that assembles a batch from frames: LogIterator::next itself, or the helper it calls for that
+    cands = [g for g in ctx.prog.fns.values() if g.skey.startswith(LOG + "LogIterator::") and len(P.call_points(g, LOG + r"LogIterator::next_frame$")) >= 2]
+    rd = nx if nx in cands else (sorted(cands, key=lambda g: g.skey)[0] if cands else nx)
+    if rd is not nx:
+        ctx.check(R, nx, "assembles-through", any(rd.key in ctx.prog.targets(t) for _b, t in nx.calls()), "LogIterator::next assembles batches through %s" % rd.skey,
+                  "LogIterator::next does not call the frame-assembling function %s" % rd.skey)
     cmps = discr_compares(rd)
     accepted = {c.get("named", str(c.get("v"))): c.get("v") for _pt, _op, c in cmps}
     ctx.check(R, rd, "tables", set(written.values()) == set(accepted.values()) and len(set(written.values())) == len(written),
@@ -129,6 +136,13 @@ def c121(ctx):
     # only through the WHOLE-equal edge or through the SECOND comparison
     nb = P.call_points(rd, LOG + r"LogIterator::next_from_buffer$")
     tail = [p for p in nb if not P.order(rd, nf, [p])]
+    # a helper reports `a batch is ready` by Ok(true): those exits are hand-outs too
+    for p in P.ok_points(rd):
+        st_ = rd.blocks[p[0]].st[p[1]]
+        o_ = st_["rv"]["ops"][0] if st_["rv"].get("ops") else None
+        if o_ is not None and o_.get("k") == "const" and o_["c"].get("ty") == "bool" and o_["c"].get("v") == 1:
+            tail.append(p)
+    ctx.floor(R, "hand-out points of the frame assembler", len(tail), 1)
     for pt in tail:
         whole = [p for p, op, c in cmps if (c.get("named") or "").endswith("HEADER_WHOLE")]
         p1 = P.reach(rd, P.ENTRY, [pt], avoid=set(second_cmp), avoid_edges=_equal_edges(rd, whole))
@@ -249,3 +263,43 @@ def c124(ctx):
     bexc = {k: v for k, v in BOUNDS_EXC.items() if any(f.skey == k[0] for f in fns)}
     nb, pb = K.bounds_audit(ctx, R + "b", fns, bexc, elem=r"^u8$")
     ctx.floor(R + "b", "byte-buffer index / slice sites in the log reader", nb, 2)
+
+
+# ------------------------------------------------------------------------------------------------
+# C12.5 an error leaves no bytes of the failed batch behind: a later poll cannot hand out part of it
+
+def c125(ctx):
+    R = "C12.5"
+    ctx.declare(R, "LogIterator::next hands out entries only from a batch that assembled and verified completely: every error exit that follows "
+                   "a read into the batch buffer clears the buffer first")
+    f = ctx.fn(R, LOG + "LogIterator::next")
+    if not f:
+        return
+    # functions that may leave unverified bytes in LogIterator.buffer: those that resize it, and their callers inside the iterator
+    dirty = set()
+    fns = [g for g in ctx.prog.fns.values() if g.skey.startswith(LOG + "LogIterator::")]
+    for g in fns:
+        for p_ in P.call_points(g, r"alloc::vec::Vec::resize$"):
+            if "buffer" in K.arg_field_names(g, p_, 0):
+                dirty.add(g.key)
+    changed = True
+    while changed:
+        changed = False
+        for g in fns:
+            if g.key in dirty or g.key == f.key:
+                continue
+            if any(k_ in dirty for _b, t in g.calls() for k_ in ctx.prog.targets(t)):
+                dirty.add(g.key)
+                changed = True
+    ctx.floor(R, "LogIterator functions that fill the batch buffer", len(dirty), 1)
+    fills = [P.term_pt(f, b.idx) for b, t in f.calls() if any(k_ in dirty for k_ in ctx.prog.targets(t))]
+    fills += [p_ for p_ in P.call_points(f, r"alloc::vec::Vec::resize$") if "buffer" in K.arg_field_names(f, p_, 0)]
+    ctx.floor(R, "LogIterator::next: calls that fill the batch buffer", len(fills), 1)
+    clears = [p_ for p_ in P.call_points(f, r"alloc::vec::Vec::(clear|truncate)$") if "buffer" in K.arg_field_names(f, p_, 0)]
+    errs = P.error_points(f)
+    for p_ in fills:
+        q = P.reach(f, P.after(f, p_), errs, avoid=set(clears)) if errs else None
+        ctx.check(R, f, "error-clears-the-batch", q is None and bool(errs),
+                  "an error after this read reaches the caller only through buffer.clear()",
+                  "LogIterator::next can return an error while the batch buffer still holds the bytes read so far (unverified, or the FIRST half of a "
+                  "split batch): the next poll starts with `buffer_idx < buffer.len()` and hands out entries of the batch that failed", pt=p_, path=q)
